@@ -189,3 +189,70 @@ def unwrap_await(e: Optional[ast.AST]) -> Optional[ast.AST]:
     while isinstance(e, ast.Await):
         e = e.value
     return e
+
+
+# ---------------------------------------------------------------- loops
+
+def loop_body_nodes(cfg: CFG, head: Node) -> Set[int]:
+    """Ids of the nodes of one iteration of the loop headed by *head* (reachable from its 'loop' edge
+    without passing the head again)."""
+    starts = [m for m, l in head.succ if l in ("loop", "t")]
+    return cfg.reachable(starts, block_nodes=[head], follow_exc=True)
+
+
+def loop_can_iterate_twice(cfg: CFG, head: Node) -> bool:
+    """Is there a path from the loop body back to the loop head?"""
+    starts = [m for m, l in head.succ if l in ("loop", "t")]
+    seen, todo = set(), list(starts)
+    while todo:
+        n = todo.pop()
+        if n.id in seen:
+            continue
+        seen.add(n.id)
+        for m, l in n.succ:
+            if m is head:
+                return True
+            todo.append(m)
+    return False
+
+
+def carried_uses(cfg: CFG, head: Node, var: str) -> List[Node]:
+    """Uses of *var* inside the loop body that can be reached from the loop head without passing a
+    definition of *var* inside the body - i.e. that can see a value from a previous iteration or
+    from before the loop."""
+    body = loop_body_nodes(cfg, head)
+    defs = []
+    for n in cfg.nodes:
+        if n.id not in body:
+            continue
+        a = n.ast
+        names = set()
+        if n.kind == "stmt" and isinstance(a, (ast.Assign, ast.AnnAssign, ast.AugAssign)):
+            tgts = a.targets if isinstance(a, ast.Assign) else [a.target]
+            for t in tgts:
+                for x in ast.walk(t):
+                    if isinstance(x, ast.Name) and isinstance(x.ctx, ast.Store):
+                        names.add(x.id)
+        if n.kind == "for":
+            for x in ast.walk(a.target):
+                if isinstance(x, ast.Name):
+                    names.add(x.id)
+        if var in names:
+            defs.append(n)
+    starts = [m for m, l in head.succ if l in ("loop", "t")]
+    # a definition takes effect on its normal completion only
+    blocked = [(d, m, l) for d in defs for m, l in d.succ if l != "exc"]
+    r = cfg.reachable(starts, block_nodes=[head], block_edges=blocked)
+    out = []
+    for n in cfg.nodes:
+        if n.id in r and n.id in body:
+            used = False
+            for e in n.exprs():
+                if n in defs and n.kind == "stmt" and isinstance(n.ast, ast.Assign):
+                    e = n.ast.value
+                for x in ast.walk(e):
+                    if isinstance(x, ast.Name) and x.id == var and isinstance(x.ctx, ast.Load):
+                        used = True
+            if used:
+                out.append(n)
+    return out
